@@ -69,10 +69,15 @@ def int16(x, what):
     return int(x)
 
 
-def val_parse(s):
-    """VAL / READ numeric parse for the spellings the generators produce; anything else is out of domain."""
+def val_parse(s, val=False):
+    """VAL / READ numeric parse for the spellings the generators produce; anything else is out of domain.
+    val=True: the VAL function (a text that does not begin like a number is 0; READ reports a syntax error there)."""
     t = s.replace(" ", "")
     if t == "":
+        return 0.0
+    if val and t[0] not in "0123456789.+-&":
+        # no number at the front at all: the ROM routine stops at once and the value is 0 (texts that BEGIN like a number
+        # and go on with something else - 12AB - stay out of domain: the value of the numeric prefix is not modelled)
         return 0.0
     try:
         if t.upper().startswith("&H"):
@@ -355,7 +360,7 @@ class CBMachine(object):
         if name == "CHR$":
             return chr(self.byte(a[0], "CHR$"))
         if name == "VAL":
-            r = val_parse(st(0))
+            r = val_parse(st(0), val=True)
             self.events.append(("call", "VAL", (st(0),), r))
             return r
         if name == "STR$":
